@@ -80,7 +80,7 @@ def removeReservedVariant (fixed : Bool) : List String → List String → List 
     `fixes/C05-reserved-words.diff` to `/repo` set it to `true`: the correspondence check
     (`check_C05`, stream "pool") then matches the repaired code, and
     `Props/C05.identifier_not_reserved_status` turns into the statement that the full property holds. -/
-def codeIsFixed : Bool := false
+def codeIsFixed : Bool := true
 
 /-- the variant the code under test implements -/
 def removeReservedCurrent : List String → List String → List String := removeReservedVariant codeIsFixed
